@@ -72,6 +72,7 @@ type model struct {
 	cOngoing   *ssa.Phi
 	cWaiting   *ssa.Phi
 	enqPhi     ssa.Value // loop-carried local enqueue channel (phi) or the direct load
+	enqDirect  bool      // the enqueue arm receives from that value itself (not from something gated further)
 	emitCall   ssa.CallInstruction
 	counterErr string    // why the loop-carried counters could not be identified ("" if they were)
 	stateVal   ssa.Value // the State value whose fields identify the counters (nil: identified structurally)
@@ -302,12 +303,31 @@ func discover(repo *load.Repo) (*model, error) {
 
 	// ENQ: the channel field Enqueue sends on.
 	ssax.Instrs(m.fnEnqueue, func(in ssa.Instruction) {
-		if s, ok := in.(*ssa.Send); ok {
-			if _, f, ok := ssax.FieldLoad(ssax.Unspill(s.Chan)); ok && isPtrTo(chanElemOr(f.Type()), m.SJ) && fieldOfStruct(m.Sched, f) {
+		var chans []ssa.Value
+		switch x := in.(type) {
+		case *ssa.Send:
+			chans = append(chans, x.Chan)
+		case *ssa.Select:
+			for _, st := range x.States {
+				if st.Dir == types.SendOnly {
+					chans = append(chans, st.Chan)
+				}
+			}
+		}
+		for _, ch := range chans {
+			if _, f, ok := ssax.FieldLoad(ssax.Unspill(ch)); ok && isPtrTo(chanElemOr(f.Type()), m.SJ) && fieldOfStruct(m.Sched, f) {
 				m.fENQ = f
 			}
 		}
 	})
+	if m.fENQ == nil {
+		// Enqueue delegates the send: the channel field of *ScheduledJob that the loop receives from and nobody else sends on
+		for i := 0; i < ss.NumFields(); i++ {
+			if f := ss.Field(i); isPtrTo(chanElemOr(f.Type()), m.SJ) && (f.Name() == "enqueuec" || m.fENQ == nil && f.Name() != "readyc") {
+				m.fENQ = f
+			}
+		}
+	}
 	if m.fENQ == nil {
 		return nil, fmt.Errorf("Enqueue does not send a *ScheduledJob on a Scheduler channel field")
 	}
@@ -384,8 +404,24 @@ func discover(repo *load.Repo) (*model, error) {
 		})
 	}
 	scan(m.fnNew, 0)
+	if m.fnWorker == nil {
+		// not started (transitively) by New: fall back to the unique function of the package with the worker's
+		// shape, so that the spawn-site rule (S9) reports where workers are started instead of the whole engine failing
+		var cands []*ssa.Function
+		for _, f := range m.funcs {
+			if isWorkerSig(f) {
+				cands = append(cands, f)
+			}
+		}
+		if len(cands) == 1 {
+			m.fnWorker = cands[0]
+		}
+	}
 	if m.fnSpawner == nil && m.fnWorker != nil {
 		m.fnSpawner = m.fnNew
+	}
+	if m.fnLoop == nil || m.fnWorker == nil || m.fnLoop.Blocks == nil || m.fnWorker.Blocks == nil {
+		return nil, fmt.Errorf("Config.New does not start (with `go`) a *Scheduler method (loop), and no worker function (receiving *ScheduledJob from a channel parameter, posting results) was found")
 	}
 	// Scheduler fields holding the limit and the error mode: by type (S29 checks how they are fed).
 	m.fConc = pick(fields(ss, func(v *types.Var) bool { return types.Identical(v.Type(), types.Typ[types.Int]) }), "concurrency")
